@@ -1,4 +1,4 @@
 CONSTANTS NP = 2  MaxOps = 3  Faults = 1  Bug = "none"
 SPECIFICATION FairSpec
-PROPERTIES ReadReturns CloseReturns ReaderExits
+PROPERTIES ReadReturns CloseReturns ReaderExits SeekReturns
 CHECK_DEADLOCK TRUE
